@@ -1,5 +1,7 @@
 import HeartwoodModel.Model.Identity
 import HeartwoodModel.Lemmas.Identity
+import HeartwoodModel.Lemmas.CobDag
+import HeartwoodModel.Props.C06
 /-!
 # C04 — Identity revisions need a majority of valid delegate signatures
 
@@ -208,6 +210,51 @@ theorem reachable_inv {V : Key → Sig → Blob → Bool} {root : Op} {embedded 
     {repoId : Blob} {s0 : Identity} (h0 : fromRoot V root embedded repoId = .ok s0) (ops : List Op) :
     Inv V (eval V s0 ops) :=
   (eval_inv ops (fromRoot_inv h0).1).1
+
+/-! ### every change graph -/
+
+section Graph
+open HeartwoodModel.Dag HeartwoodModel.ChangeGraph
+
+/-- `Evaluate::init` for identities: `embeddedOf` gives the document embedded in a commit
+(`Doc::load_at`), `repoId` the blob the repository is named after. -/
+def graphInit (V : Key → Sig → Blob → Bool) (embeddedOf : Op → Option IdDoc) (repoId : Blob) (o : Op) :
+    Option Identity :=
+  match fromRoot V o (embeddedOf o) repoId with
+  | .ok s => some s
+  | .error _ => none
+
+/-- **accepted_has_majority_dag** — the property for the state produced by the real evaluation algorithm
+(`ChangeGraph::evaluate` as modelled in `Model/ChangeGraph.lean`, with `Identity::op` reading
+`concurrent.is_empty()` off the evaluator's sibling list) on EVERY well-formed acyclic change graph, for
+every verification predicate `V`: the current revision exists and is accepted, and every accepted
+revision other than the root has a live accepted parent a strict majority of whose document's delegates
+have each recorded a valid signature over its blob; moreover the evaluated state is a linear run over
+validly signed entries of the graph, reached through states that all satisfy the invariant `Inv`. -/
+theorem accepted_has_majority_dag {V : Key → Sig → Blob → Bool} {embeddedOf : Op → Option IdDoc}
+    {repoId : Blob} {g g' : Dag Op} (hwf : g.Wf) (hac : Acyclic g.dependentsOf)
+    {sigOk : Op → Bool} {ts : Op → Nat} {fuel : Nat} {root : K} {s : Identity}
+    (h : evaluate sigOk ts (graphInit V embeddedOf repoId) (identityApplyM V) fuel g root = .ok s g') :
+    ∃ (rootOp : Op), (∃ rn, g.get root = some rn ∧ rn.value = rootOp) ∧ Inv V s ∧
+      (∃ c, get? s.current s.revisions = some (some c) ∧ c.state = .accepted) ∧
+      ∀ id r, get? id s.revisions = some (some r) → r.state = .accepted → id ≠ rootOp.id →
+        ∃ pid p, r.parent = some pid ∧ get? pid s.revisions = some (some p) ∧ p.state = .accepted ∧
+          MajoritySigned V p.doc r := by
+  obtain ⟨rn, s0, calls, hr, hi, _, _, _, hs⟩ :=
+    evaluate_is_fold (stepf := step V)
+      (entryOf := fun (c : Call Op) => ({ c.2.1.value with concurrent := !c.2.2.isEmpty } : Op)) hwf hac
+      (fun s k n sibs => by simp [identityApplyM]) h
+  have hi' : fromRoot V rn.value (embeddedOf rn.value) repoId = .ok s0 := by
+    unfold graphInit at hi
+    split at hi
+    · rename_i q hq; cases hi; exact hq
+    · cases hi
+  have := accepted_has_majority hi' (calls.map fun (c : Call Op) => ({ c.2.1.value with concurrent := !c.2.2.isEmpty } : Op))
+  have hinv := reachable_inv hi' (calls.map fun (c : Call Op) => ({ c.2.1.value with concurrent := !c.2.2.isEmpty } : Op))
+  rw [show eval V s0 _ = s from hs.symm] at this hinv
+  exact ⟨rn.value, ⟨rn, hr, rfl⟩, hinv, this.1, this.2⟩
+
+end Graph
 
 /-! ### regression: an op with two `Revision` actions (fix a66814b) -/
 
